@@ -161,6 +161,9 @@ impl<'a> Eval<'a> {
         let adv = adv.min(pre.min(s.len()));
         let (exp, need) = reference(f, s, o, pat);
         rep.inc("evals_strict");
+        if pre > s.len() {
+            rep.inc("evals_on_reader_that_has_seen_the_end");
+        }
         let needed = match need {
             Some(i) => (i + 1).min(s.len()),
             None => 0,
@@ -362,6 +365,21 @@ impl Monitor for C16 {
                     let p = &ps[(idx as usize) % ps.len()];
                     ev.strict(rep, F::Fixed, o, p, pre, adv);
                 }
+                // the same on a reader that has already seen the end of input (an earlier request went
+                // past it), with and without the cursor advanced
+                if o <= s.len() {
+                    let pre = s.len() + 1;
+                    let adv = if o > 0 { (idx as usize) % (o + 1) } else { 0 };
+                    for f in [F::Blanks, F::Newline, F::NextNewline] {
+                        ev.strict(rep, f, o, &[], pre, 0);
+                        if adv > 0 {
+                            ev.strict(rep, f, o, &[], pre, adv);
+                        }
+                    }
+                    let ps = patterns(&s, o, None);
+                    let p = &ps[(idx as usize + 1) % ps.len()];
+                    ev.strict(rep, F::Fixed, o, p, pre, adv);
+                }
             }
         } else if self.mode == "words" {
             // every 8-byte word over WORD_ALPHA, fully buffered (so that word-at-a-time scanning, if any,
@@ -437,7 +455,12 @@ impl Monitor for C16 {
                     },
                     _ => Policy::SplitAt(rng.usize(len + 1)),
                 };
-                let pre = if rng.chance(1, 2) { 0 } else { rng.usize(len + 1) };
+                let pre = match rng.below(4) {
+                    0 | 1 => 0,
+                    2 => rng.usize(len + 1),
+                    // past the end: the reader is complete before the call
+                    _ => len + 1 + rng.usize(3),
+                };
                 let seed = rng.next();
                 let ps = patterns(&s, o, Some(rng));
                 let p = ps[rng.usize(ps.len())].clone();
